@@ -275,6 +275,7 @@ def run_sim(repo, paths, cfg, decisions=None, keep_trace=True):
         pipe_split=pipe.get("split", 16384),
     )
     world.faults = [simmp.fault_from_json(d) for d in cfg.get("faults", [])]
+    world.pickle_at_put = bool(cfg.get("pickle_at_put", False))
     world._alive_at_empty = 0
     b = cfg.get("batch")
     if b is None:
